@@ -210,6 +210,11 @@ class H2Protocol:
             else:
                 self.priority.block(stream_id)
 
+            if self.closed:
+                # Closed whilst waiting to write the above, the buffers
+                # have been emptied without their data having been sent
+                # and must not be mistaken for complete responses.
+                return
             if self.stream_buffers[stream_id].complete:
                 self.connection.end_stream(stream_id)
                 await self._flush()
@@ -286,6 +291,10 @@ class H2Protocol:
                 self.priority.unblock(event.stream_id)
                 await self.has_data.set()
                 await self.stream_buffers[event.stream_id].drain()
+                if self.closed:
+                    # Emptied as the connection has closed, not as the
+                    # body has been sent: this is not its end.
+                    return
                 self.connection.send_headers(event.stream_id, event.headers, end_stream=True)
                 await self._flush()
             elif isinstance(event, StreamClosed):
